@@ -122,6 +122,10 @@ func GenConfig(r *simrt.Rand, p *Profile) *Config {
 		c.TimeoutMs = []int64{100, 250, 1000, 60000, 3600000}[r.Intn(5)]
 	}
 	c.OffStruct = r.Fork(31).Chance(1, 4)
+	if p.UniqueMin == 0 && r.Fork(32).Chance(1, 12) {
+		// a collection without any index, unique or case constraint
+		return c
+	}
 	nU := p.UniqueMin
 	if p.UniqueMax > p.UniqueMin {
 		nU += r.Intn(p.UniqueMax - p.UniqueMin + 1)
